@@ -1,5 +1,7 @@
 import PytmeModel.Model.C10
 import PytmeModel.Proofs.C10
+import PytmeModel.Model.C10K
+import PytmeModel.Proofs.C10K
 
 /-! # C10 — atoms are deposited on the grid at the right voxel and no mass is lost
 
@@ -334,5 +336,677 @@ example : ("ZN", 30, 65380000000) ∈ elementTable ∧ lookup "Zn" = none ∧ lo
 
 example : weightOf .atomicWeight "C" = 12011000000 ∧ weightOf .atomicNumber "FE" = 26 ∧
     weightOf .atomicWeight "Fe" = 0 ∧ weightOf .atomicNumber "" = 0 := by decide +kernel
+
+/-! # Kernels: the weight types that are not point weights (Model/C10K.lean)
+
+`van_der_waals_radius`: everything is integer and is proved.  `scattering_factors`, `lowpass_scattering_factors`,
+`gaussian`: the float VALUES (spline profile, Gaussian filter) are not modelled; what is proved is the SUPPORT — which
+voxels receive a contribution — and the deposit that precedes the Gaussian filter. -/
+
+/-! ## van der Waals spheres -/
+
+/-- every element with a positive radius gets a radius of at least one voxel on every axis, whatever the sampling rate -/
+theorem vdw_radius_positive (vdwr : Nat) (rate : List Rat) (hv : 0 < vdwr) (hr : ∀ x ∈ rate, 0 < x) :
+    ∀ k ∈ vdwRadius vdwr rate, 0 < k := vdwRadius_pos vdwr rate hv hr
+
+example : vdwRadius 170 [1, 1/2, 17/10] = [2, 4, 1] ∧ vdwRadius 170 [2, 3, 10] = [1, 1, 1] ∧ vdwRadius 0 [1, 1, 1] = [0, 0, 0] := by
+  decide +kernel
+
+/-- the sphere contains the atom's own voxel as soon as the radius is at least one voxel on every axis … -/
+theorem sphere_contains_centre (k : List Int) (hk : ∀ x ∈ k, 0 < x) :
+    inSphere k (List.replicate k.length 0) = true := by
+  unfold inSphere
+  rw [sphereSum_zero]
+  simp only [Bool.and_eq_true, List.all_eq_true, decide_eq_true_eq]
+  exact ⟨fun x hx => hk x hx, by norm_num⟩
+
+/-- … and is EMPTY when a radius is zero (symbols that are no table key have `vdwr = 0`: they deposit nothing) -/
+theorem sphere_empty_of_zero_radius (k d : List Int) (x : Int) (hx : x ∈ k) (h0 : x ≤ 0) : inSphere k d = false := by
+  unfold inSphere
+  rw [Bool.and_eq_false_iff]
+  left
+  rw [List.all_eq_false]
+  exact ⟨x, hx, by simp; omega⟩
+
+example : inSphere [2, 4, 1] [0, 0, 0] = true ∧ inSphere [0, 0, 0] [0, 0, 0] = false := by decide +kernel
+
+/-- the sphere is symmetric about the atom's voxel -/
+theorem sphere_symmetric (k d : List Int) : inSphere k (d.map (fun x => -x)) = inSphere k d := by
+  unfold inSphere
+  rw [sphereSum_neg]
+
+example : inSphere [2, 4, 1] [1, -3, 0] = true ∧ inSphere [2, 4, 1] [-1, 3, 0] = true ∧
+    inSphere [2, 4, 1] [2, 1, 0] = false ∧ inSphere [2, 4, 1] [-2, -1, 0] = false := by decide +kernel
+
+/-- a voxel of the sphere is at most `k` voxels from the centre on every axis, so the footprint array
+`np.mgrid[-k:k+1]` the code allocates contains the whole sphere -/
+theorem sphere_within_radius (p k v : List Int) (hk : k.length = p.length) (hv : p.length = v.length)
+    (h : inSphere k (offs v p) = true) : inWin p k v = true := inSphere_inWin p k v hk hv h
+
+example : inSphere [2, 4, 1] (offs [6, 2, 3] [5, 5, 3]) = true ∧ inWin [5, 5, 3] [2, 4, 1] [6, 2, 3] = true := by
+  decide +kernel
+
+/-- the two slices `volume[start:stop]` and `footprint[start_index:stop_index]` have equal lengths and non-negative
+bounds on every axis for every atom inside the box, every radius and every shape: `+=` never raises, nothing is written
+outside the array, nothing wraps around -/
+theorem vdw_slices_never_fail (shape : List Int) (placedK : List (List Int × List Int))
+    (hp : ∀ pk ∈ placedK, inBox shape pk.1 = true) (hk : ∀ pk ∈ placedK, ∀ x ∈ pk.2, 0 ≤ x) :
+    ∃ g, vdwDeposit shape placedK = .ok g ∧ g.shape = toNats shape :=
+  ⟨_, vdwDeposit_ok shape placedK hp hk, rfl⟩
+
+/-- the van der Waals volume: voxel `v` holds the NUMBER of atoms whose sphere contains it (overlapping atoms add up,
+the map is not binary), clipped to the box and to nothing else -/
+theorem vdw_voxel (shape : List Int) (placedK : List (List Int × List Int)) (g : Arr Int)
+    (hp : ∀ pk ∈ placedK, inBox shape pk.1 = true) (hk : ∀ pk ∈ placedK, ∀ x ∈ pk.2, 0 ≤ x)
+    (hl : ∀ pk ∈ placedK, pk.2.length = pk.1.length) (hg : vdwDeposit shape placedK = .ok g)
+    (v : List Nat) (hv : inShape (toNats shape) v = true) :
+    g.getD v 0 = ((placedK.filter (fun pk => inSphere pk.2 (offs (v.map Int.ofNat) pk.1))).length : Int) := by
+  rw [vdwDeposit_ok shape placedK hp hk] at hg
+  cases hg
+  rw [Arr.getD_ofFn _ _ _ _ hv, ← sum_ite_eq_length]
+  congr 1
+  apply List.map_congr_left
+  intro pk hpk
+  rw [vdwContribution_eq shape pk.1 pk.2 _ (hl pk hpk) (inBox_length (hp pk hpk)), inBox_of_inShape hv, Bool.true_and]
+
+/-- total mass: the sum of the volume is, atom by atom, the number of voxels of its sphere that lie in the box -/
+theorem vdw_total (shape : List Int) (placedK : List (List Int × List Int)) (g : Arr Int)
+    (hp : ∀ pk ∈ placedK, inBox shape pk.1 = true) (hk : ∀ pk ∈ placedK, ∀ x ∈ pk.2, 0 ≤ x)
+    (hl : ∀ pk ∈ placedK, pk.2.length = pk.1.length) (hg : vdwDeposit shape placedK = .ok g) :
+    g.data.toList.sum = (placedK.map (fun pk =>
+      (((allIdx (toNats shape)).filter (fun v => inSphere pk.2 (offs (v.map Int.ofNat) pk.1))).length : Int))).sum := by
+  rw [vdwDeposit_ok shape placedK hp hk] at hg
+  cases hg
+  rw [ofFn_sum, sum_map_sum_comm (allIdx (toNats shape)) placedK (fun pk v => vdwContribution shape pk.1 pk.2 (v.map Int.ofNat))]
+  congr 1
+  apply List.map_congr_left
+  intro pk hpk
+  rw [← sum_ite_eq_length]
+  congr 1
+  apply List.map_congr_left
+  intro v hv
+  have hin : inShape (toNats shape) v = true := by
+    simp only [allIdx, List.mem_map, List.mem_range] at hv
+    obtain ⟨i, hi, rfl⟩ := hv
+    exact inShape_unflat _ _ hi
+  rw [vdwContribution_eq shape pk.1 pk.2 _ (hl pk hpk) (inBox_length (hp pk hpk)), inBox_of_inShape hin, Bool.true_and]
+
+example : (vdwDeposit [3, 4] [([0, 1], [1, 1]), ([1, 1], [1, 2])]).map (·.toList) =
+    .ok [1, 2, 1, 0, 1, 2, 1, 1, 0, 1, 0, 0] := by decide +kernel
+
+/-! ## scattering factors: the support (values are floats and are left to the correspondence) -/
+
+/-- one axis: the voxels that receive a contribution are exactly the integers `v` of the axis with
+`p - R ≤ v` and `v + 1 ≤ p + R` (`range(ceil(p - R), floor(p + R))` clipped to `[0, n)`) -/
+theorem scat_axis_exact (p : Int) (R : Rat) (n v : Int) :
+    ((scatRange p R n).1 ≤ v ∧ v < (scatRange p R n).2) ↔
+      (0 ≤ v ∧ v < n) ∧ ((p : Rat) - R ≤ (v : Rat) ∧ (v : Rat) + 1 ≤ (p : Rat) + R) := scatRange_spec p R n v
+
+/-- the atom's own voxel is in the range iff the radius is at least one voxel -/
+theorem scat_axis_centre_iff (p : Int) (R : Rat) (n : Int) (hp : 0 ≤ p ∧ p < n) :
+    ((scatRange p R n).1 ≤ p ∧ p < (scatRange p R n).2) ↔ 1 ≤ R := by
+  rw [scatRange_spec]
+  constructor
+  · rintro ⟨_, _, h⟩; linarith
+  · intro h; exact ⟨hp, by linarith, by linarith⟩
+
+example : scatRange 5 (3/2) 20 = (4, 6) ∧ scatRange 5 (1/2) 20 = (5, 5) ∧ scatRange 0 (5/2) 2 = (0, 2) := by decide +kernel
+
+/-- TODAY's support is NOT symmetric about the atom's voxel `p`: it is symmetric about `p - 1/2` (the mirror image of
+`v` is `2p - 1 - v`), because `range(start, stop)` leaves out `stop = floor(p + R)` -/
+theorem scat_axis_mirror (p : Int) (R : Rat) (n v : Int) (hv : 0 ≤ v ∧ v < n) (hm : 0 ≤ 2 * p - 1 - v ∧ 2 * p - 1 - v < n) :
+    ((scatRange p R n).1 ≤ v ∧ v < (scatRange p R n).2) ↔
+      ((scatRange p R n).1 ≤ 2 * p - 1 - v ∧ 2 * p - 1 - v < (scatRange p R n).2) := by
+  rw [scatRange_spec, scatRange_spec]
+  push_cast
+  constructor
+  · rintro ⟨_, a, b⟩; exact ⟨hm, by linarith, by linarith⟩
+  · rintro ⟨_, a, b⟩; exact ⟨hv, by linarith, by linarith⟩
+
+/-- witness: radius 3/2 voxels around voxel 5 — voxels 4 and 5 receive a contribution, voxel 6 does not -/
+theorem scat_support_halfopen_current : scatRange 5 (3/2) 20 = (4, 6) ∧
+    scatCovers [5, 5, 5] [3/2, 3/2, 3/2] [20, 20, 20] [4, 5, 5] = true ∧
+    scatCovers [5, 5, 5] [3/2, 3/2, 3/2] [20, 20, 20] [6, 5, 5] = false := by decide +kernel
+
+/-- no index out of bounds: whatever the radius, every voxel that receives a contribution from an atom inside the box
+is inside the box (product of ranges, or the fallback to the atom's own voxel) -/
+theorem scat_support_inBox (p : List Int) (R : List Rat) (shape v : List Int) (hp : inBox shape p = true)
+    (hR : R.length = shape.length) (h : scatCovers p R shape v = true) : inBox shape v = true := by
+  unfold scatCovers at h
+  split at h
+  · exact inRanges_inBox p R shape v (inBox_length hp) hR (by
+      rename_i rs hs
+      unfold scatSupport at hs
+      simp only at hs
+      split at hs
+      · cases hs
+      · split at hs
+        · cases hs
+        · cases hs; exact h)
+  · have : v = p := by simpa using h
+    rw [this]; exact hp
+  · cases h
+
+/-- the fallback of the code (`if not len(distances)`): when the range of the SECOND axis is empty the value at
+distance 0 goes to the atom's own voxel, and only there -/
+theorem scat_point_fallback (p : List Int) (R : List Rat) (shape v : List Int)
+    (h : rangeEmpty ((zip3 scatRange p R shape).getD 1 (0, 0)) = true) :
+    scatCovers p R shape v = (v == p) := by
+  unfold scatCovers scatSupport
+  simp only [h, if_true]
+
+example : scatCovers [5, 5, 5] [3/2, 1/2, 3/2] [20, 20, 20] [5, 5, 5] = true ∧
+    scatCovers [5, 5, 5] [3/2, 1/2, 3/2] [20, 20, 20] [4, 5, 5] = false ∧
+    (scatCount [20, 20, 20] [([5, 5, 5], [1/2, 3/2, 3/2])]).toOption.isNone = true := by decide +kernel
+
+/-! ## gaussian: the deposit that precedes the Gaussian filter -/
+
+/-- `_position_to_molmap` derives its own origin `min - pad·rate` and shape `max + pad + 1`: every atom is stored at
+least `pad` voxels away from every face of the array, for every padding, rate and structure -/
+theorem molmap_pad_margin (nd pad : Nat) (rate : List Rat) (coords : List (List Rat)) (w : List Int)
+    (hrl : rate.length = nd) (hrp : ∀ k, k < nd → 0 < rate.getD k 0) (c : List Rat) (hc : c ∈ coords)
+    (hcl : c.length = nd) (k : Nat) (hk : k < nd) :
+    (pad : Int) ≤ (idxOf (molmap nd pad rate coords w).origin rate c).getD k 0 ∧
+    (idxOf (molmap nd pad rate coords w).origin rate c).getD k 0 + (pad : Int) < (molmap nd pad rate coords w).shape.getD k 0 :=
+  molmap_margin nd pad rate coords w hrl hrp c hc hcl k hk
+
+/-- … the stored positions are `round((zyx − returned origin)/rate)`, all inside, and no mass is lost: the array handed
+to the Gaussian filter sums to the summed weight of ALL atoms -/
+theorem molmap_total (nd pad : Nat) (rate : List Rat) (coords : List (List Rat)) (w : List Int)
+    (hrl : rate.length = nd) (hrp : ∀ k, k < nd → 0 < rate.getD k 0) (hcl : ∀ c ∈ coords, c.length = nd)
+    (hw : w.length = coords.length) :
+    (molmap nd pad rate coords w).positions = coords.map (idxOf (molmap nd pad rate coords w).origin rate) ∧
+    (∀ p ∈ (molmap nd pad rate coords w).positions, inBox (molmap nd pad rate coords w).shape p = true) ∧
+    (molmap nd pad rate coords w).grid.data.toList.sum = w.sum := by
+  have hin : ∀ p ∈ (molmap nd pad rate coords w).positions, inBox (molmap nd pad rate coords w).shape p = true := by
+    intro p hp
+    rw [molmap_positions] at hp
+    obtain ⟨c, hc, rfl⟩ := List.mem_map.mp hp
+    exact molmap_inBox nd pad rate coords w hrl hrp c hc (hcl c hc)
+  refine ⟨rfl, hin, ?_⟩
+  have hg : (molmap nd pad rate coords w).grid = deposit (toNats (molmap nd pad rate coords w).shape)
+      (List.zipWith (fun p w => (toNats p, w)) (molmap nd pad rate coords w).positions w) := rfl
+  rw [hg, deposit_total, zipWith_snd _ _ (by rw [molmap_positions]; simpa using hw)]
+  intro pw hpw
+  obtain ⟨q, hq, e⟩ := zipWith_mem _ _ pw hpw
+  rw [e]
+  exact inBox_toNats (hin q hq)
+
+example : (molmap 2 3 [1, 1/2] [[0, 0], [5/2, 1]] [6, 8]).origin.map (fun q => (q.num, q.den)) = [(-3, 1), (-3, 2)] ∧
+    (molmap 2 3 [1, 1/2] [[0, 0], [5/2, 1]] [6, 8]).shape = [10, 9] ∧
+    (molmap 2 3 [1, 1/2] [[0, 0], [5/2, 1]] [6, 8]).positions = [[3, 3], [6, 5]] := by decide +kernel
+
+/-! ## `Structure.from_file` filters and the box given by the caller -/
+
+/-- the `keep` mask: element in the set (absent / EMPTY set = no filter), residue in the set (same), record `ATOM` -/
+theorem fileKeep_spec (e r : Option (List String)) (x : Rec) :
+    fileKeep e r false x = true ↔
+      setFilter e x.atom.elem = true ∧ setFilter r x.resname = true ∧ x.record = "ATOM" := by
+  simp [fileKeep, and_assoc]
+
+theorem setFilter_spec (l : List String) (hl : l ≠ []) (x : String) :
+    setFilter none x = true ∧ setFilter (some []) x = true ∧ (setFilter (some l) x = true ↔ x ∈ l) := by
+  refine ⟨rfl, rfl, ?_⟩
+  cases l with
+  | nil => exact absurd rfl hl
+  | cons a t => simp [setFilter]
+
+/-- `Density.from_structure(path, …, chain, filter_by_elements, filter_by_residues)` is `to_volume` of exactly the
+selected records (glue) -/
+theorem fromFileK_selected (nd : Nat) (recs : List Rec) (e r : Option (List String)) (shape : Option (List Int))
+    (rate origin : Option (List Rat)) (chain : Option String) (wk : WKind) :
+    fromFileK nd recs e r shape rate origin chain wk =
+      toVolumeK nd ((recs.filter (fun x => fileKeep e r false x)).map (·.atom)) shape rate origin chain wk := rfl
+
+/-- filtering records (by element, residue, record type — any predicate on the records) with origin and shape given
+changes every voxel by exactly the summed weight of the removed records mapped to it -/
+theorem file_filter_diff {β : Type} (f : β → Atom) (nd : Nat) (l : List β) (s : List Int) (r o : List Rat) (wt : WType)
+    (keep : β → Bool) (v : List Nat) (hv : inShape (toNats s) v = true) :
+    (toVolumeCore nd (l.map f) (some s) r (some o) wt).grid.getD v 0 =
+      (toVolumeCore nd ((l.filter keep).map f) (some s) r (some o) wt).grid.getD v 0 +
+      (toVolumeCore nd ((l.filter (fun x => !keep x)).map f) (some s) r (some o) wt).grid.getD v 0 := by
+  have hs : ∀ X, (toVolumeCore nd X (some s) r (some o) wt).shape = s := by
+    intro X; simp [toVolumeCore, frame_given]
+  have hf : ∀ X, frameOf nd X (some s) r (some o) = ⟨o, List.replicate nd 0, s, o⟩ := by
+    intro X; simp [frameOf, frame_given]
+  rw [toVolume_voxel _ _ _ _ _ _ v (by rw [hs]; exact hv), toVolume_voxel _ _ _ _ _ _ v (by rw [hs]; exact hv),
+    toVolume_voxel _ _ _ _ _ _ v (by rw [hs]; exact hv)]
+  simp only [hf, List.filter_map, List.map_map]
+  exact sum_filter_split l keep _ _
+
+example :
+    let recs : List Rec := [⟨⟨[0, 0, 0], "C", "A"⟩, "GLY", "ATOM"⟩, ⟨⟨[1, 1, 1], "O", "A"⟩, "SER", "ATOM"⟩,
+      ⟨⟨[1, 0, 0], "ZN", "A"⟩, "ZN", "HETATM"⟩]
+    (recs.filter (fun x => fileKeep (some []) (some ["SER", "ZN"]) false x)).map (·.atom.elem) = ["O"] ∧
+    (recs.filter (fun x => fileKeep (some ["C", "ZN"]) none false x)).map (·.atom.elem) = ["C"] := by decide +kernel
+
+/-- origin AND shape given by the caller: the frame is the caller's, the position of every atom is exactly
+`rint((zyx − origin)/rate)`, the atoms kept are exactly those whose position is inside the shape — none outside is
+kept, none inside is lost, in input order -/
+theorem given_box_kept (nd : Nat) (sub : List Atom) (s : List Int) (r o : List Rat) (wt : WType)
+    (hx : ∀ a ∈ sub, a.xyz.length ≤ nd) :
+    (toVolumeCore nd sub (some s) r (some o) wt).shape = s ∧
+    (toVolumeCore nd sub (some s) r (some o) wt).origin = o ∧
+    (toVolumeCore nd sub (some s) r (some o) wt).kept =
+      (sub.filter (fun a => inBox s (idxOf o r a.xyz.reverse))).map
+        (fun a => (idxOf o r a.xyz.reverse, weightOf wt a.elem)) := by
+  have hpos : ∀ a ∈ sub, posOf r ⟨o, List.replicate nd 0, s, o⟩ a.xyz.reverse = idxOf o r a.xyz.reverse := by
+    intro a ha
+    unfold posOf
+    simp only
+    apply subPos_zeros
+    exact Nat.le_trans (zip3_length_le _ _ _ _) (by simpa using hx a ha)
+  refine ⟨by simp [toVolumeCore, frame_given], by simp [toVolumeCore, frame_given], ?_⟩
+  unfold toVolumeCore placed
+  simp only [frame_given, List.filter_map]
+  rw [List.map_congr_left (g := fun a => (idxOf o r a.xyz.reverse, weightOf wt a.elem))]
+  · congr 1
+    apply List.filter_congr
+    intro a ha
+    simp only [Function.comp]
+    rw [hpos a ha]
+  · intro a ha
+    rw [hpos a (List.mem_of_mem_filter ha)]
+
+example :
+    let sub : List Atom := [⟨[0, 0, 0], "C", "A"⟩, ⟨[5, 1, 1], "O", "A"⟩, ⟨[3/2, 1, 0], "N", "A"⟩]
+    (toVolumeCore 3 sub (some [2, 2, 3]) [1, 1, 1] (some [0, 0, 0]) .atomicNumber).kept = [([0, 0, 0], 6), ([0, 1, 2], 7)] ∧
+    (toVolumeCore 3 sub (some [2, 2, 2]) [1, 1, 1] (some [0, 0, 0]) .atomicNumber).kept = [([0, 0, 0], 6)] := by decide +kernel
+
+/-! ## the whole of `to_volume` for the sphere / support weight types -/
+
+/-- `to_volume(weight_type="van_der_waals_radius" | "scattering_factors" | "lowpass_scattering_factors")`: shape,
+origin, rate, out-of-bounds count and the kept positions are those of the point-weight conversion of the same arguments
+(so every frame theorem above applies to these weight types, too) -/
+theorem toVolumeK_frame (nd : Nat) (atoms : List Atom) (shape : Option (List Int)) (rate origin : Option (List Rat))
+    (chain : Option String) (wk : WKind) (hwk : wk = .vdw ∨ wk = .scattering) (out : OutK)
+    (h : toVolumeK nd atoms shape rate origin chain wk = .ok out) :
+    ∃ r, resolveRate nd rate = some r ∧
+      out.shape = (toVolumeCore nd (subsetByChain chain atoms) shape r origin .atomicNumber).shape ∧
+      out.origin = (toVolumeCore nd (subsetByChain chain atoms) shape r origin .atomicNumber).origin ∧
+      out.rate = r ∧
+      out.outside = (toVolumeCore nd (subsetByChain chain atoms) shape r origin .atomicNumber).outside ∧
+      out.positions = (toVolumeCore nd (subsetByChain chain atoms) shape r origin .atomicNumber).kept.map (·.1) := by
+  rcases hwk with rfl | rfl
+  all_goals
+    unfold toVolumeK at h
+    simp only at h
+    split at h
+    · cases h
+    · rename_i r hr
+      refine ⟨r, hr, ?_⟩
+      split at h
+      · cases h
+      · split at h
+        · cases h
+        · split at h
+          · cases h
+          · cases h
+            refine ⟨rfl, rfl, rfl, ?_, ?_⟩
+            · unfold toVolumeCore
+              simp only
+              rw [keptK_length _ _ .atomicNumber]
+            · unfold toVolumeCore
+              simp only
+              exact keptK_positions _ _ .atomicNumber _
+
+/-- end to end: with positive rates, a voxel of the van der Waals volume holds the number of atoms of the chain subset
+that lie inside the grid and whose sphere (radius `ceil(vdwr/(100·rate))` voxels per axis around the atom's voxel)
+contains it -/
+theorem toVolumeK_vdw_voxel (nd : Nat) (atoms : List Atom) (shape : Option (List Int)) (rate origin : Option (List Rat))
+    (chain : Option String) (out : OutK) (h : toVolumeK nd atoms shape rate origin chain .vdw = .ok out)
+    (hs : ∀ s, shape = some s → s.length = nd) (hpos : ∀ r, resolveRate nd rate = some r → ∀ x ∈ r, 0 < x)
+    (v : List Nat) (hv : inShape (toNats out.shape) v = true) :
+    ∃ r, resolveRate nd rate = some r ∧
+      out.grid.getD v 0 = (((subsetByChain chain atoms).filter (fun a =>
+        inBox out.shape (posOf r (frameOf nd (subsetByChain chain atoms) shape r origin) a.xyz.reverse) &&
+        inSphere (vdwRadius (vdwrD a.elem) r)
+          (offs (v.map Int.ofNat) (posOf r (frameOf nd (subsetByChain chain atoms) shape r origin) a.xyz.reverse)))).length : Int) := by
+  unfold toVolumeK at h
+  simp only at h
+  split at h
+  · cases h
+  · rename_i r hr
+    refine ⟨r, hr, ?_⟩
+    have hrl := resolveRate_length nd rate r hr
+    have hrp := hpos r hr
+    split at h
+    · cases h
+    · split at h
+      · cases h
+      · split at h
+        · cases h
+        · rename_i g hg
+          cases h
+          simp only at hv ⊢
+          set sub := subsetByChain chain atoms with hsub
+          set fr := frame nd (sub.map (fun a => a.xyz.reverse)) shape r origin with hfr
+          have hshl : fr.shape.length = nd := frame_shape_length nd _ shape r origin hs
+          set kept := (sub.map (fun a => (posOf r fr a.xyz.reverse, a.elem))).filter (fun pe => inBox fr.shape pe.1) with hkept
+          have hp : ∀ pk ∈ kept.map (fun pe => (pe.1, vdwRadius (vdwrD pe.2) r)), inBox fr.shape pk.1 = true := by
+            intro pk hpk
+            obtain ⟨pe, hpe, rfl⟩ := List.mem_map.mp hpk
+            exact (List.mem_filter.mp hpe).2
+          have hk : ∀ pk ∈ kept.map (fun pe => (pe.1, vdwRadius (vdwrD pe.2) r)), ∀ x ∈ pk.2, 0 ≤ x := by
+            intro pk hpk
+            obtain ⟨pe, _, rfl⟩ := List.mem_map.mp hpk
+            exact vdwRadius_nonneg _ r hrp
+          have hl : ∀ pk ∈ kept.map (fun pe => (pe.1, vdwRadius (vdwrD pe.2) r)), pk.2.length = pk.1.length := by
+            intro pk hpk
+            obtain ⟨pe, hpe, rfl⟩ := List.mem_map.mp hpk
+            have := inBox_length (List.mem_filter.mp hpe).2
+            simp only [vdwRadius, List.length_map]
+            omega
+          rw [vdw_voxel fr.shape _ g hp hk hl hg v hv]
+          congr 1
+          simp only [hkept, List.filter_map, List.length_map, List.filter_filter]
+          unfold frameOf
+          congr 1
+          apply List.filter_congr
+          intro a _
+          simp only [Function.comp, Bool.and_comm]
+          rfl
+
+example :
+    let atoms : List Atom := [⟨[0, 0, 0], "C", "A"⟩, ⟨[2, 0, 1], "N", "A"⟩, ⟨[9, 9, 9], "O", "A"⟩, ⟨[1, 1, 1], "Xx", "B"⟩]
+    (toVolumeK 3 atoms (some [2, 2, 3]) (some [2]) (some [0, 0, 0]) none .vdw).toOption.map
+      (fun o => (o.outside, o.positions, o.grid.toList)) =
+      some (1, [[0, 0, 0], [0, 0, 1], [0, 0, 0]], [2, 2, 1, 1, 1, 0, 1, 1, 0, 0, 0, 0]) := by decide +kernel
+
+/-- the support-count array: a voxel holds the number of atoms whose support covers it; it exists unless some atom
+runs into the `IndexError` of an empty range on the first / last axis -/
+theorem scatCount_voxel (shape : List Int) (placedR : List (List Int × List Rat)) (g : Arr Int)
+    (hg : scatCount shape placedR = .ok g) (v : List Nat) (hv : inShape (toNats shape) v = true) :
+    g.getD v 0 = ((placedR.filter (fun pr => scatCovers pr.1 pr.2 shape (v.map Int.ofNat))).length : Int) := by
+  unfold scatCount at hg
+  split at hg
+  · cases hg
+  · cases hg
+    rw [Arr.getD_ofFn _ _ _ _ hv, ← sum_ite_eq_length]
+
+/-- end to end for `scattering_factors` / `lowpass_scattering_factors`: a voxel receives a contribution from exactly
+the atoms of the chain subset inside the grid whose support `range(ceil(p − R), floor(p + R))` (per axis,
+`R = vdwr/(100·rate)`; the atom's own voxel when the range of the second axis is empty) covers it -/
+theorem toVolumeK_scat_voxel (nd : Nat) (atoms : List Atom) (shape : Option (List Int)) (rate origin : Option (List Rat))
+    (chain : Option String) (out : OutK) (h : toVolumeK nd atoms shape rate origin chain .scattering = .ok out)
+    (v : List Nat) (hv : inShape (toNats out.shape) v = true) :
+    ∃ r, resolveRate nd rate = some r ∧
+      out.grid.getD v 0 = (((subsetByChain chain atoms).filter (fun a =>
+        inBox out.shape (posOf r (frameOf nd (subsetByChain chain atoms) shape r origin) a.xyz.reverse) &&
+        scatCovers (posOf r (frameOf nd (subsetByChain chain atoms) shape r origin) a.xyz.reverse)
+          (scatRadius (vdwrD a.elem) r) out.shape (v.map Int.ofNat))).length : Int) := by
+  unfold toVolumeK at h
+  simp only at h
+  split at h
+  · cases h
+  · rename_i r hr
+    refine ⟨r, hr, ?_⟩
+    split at h
+    · cases h
+    · split at h
+      · cases h
+      · split at h
+        · cases h
+        · rename_i g hg
+          cases h
+          simp only at hv ⊢
+          rw [scatCount_voxel _ _ g hg v hv]
+          congr 1
+          simp only [List.filter_map, List.length_map, List.filter_filter]
+          unfold frameOf
+          congr 1
+          apply List.filter_congr
+          intro a _
+          simp only [Function.comp, Bool.and_comm]
+
+example :
+    let atoms : List Atom := [⟨[0, 0, 0], "C", "A"⟩, ⟨[2, 1, 1], "N", "A"⟩]
+    (toVolumeK 3 atoms none none none none .scattering).toOption.map (fun o => (o.shape, o.grid.toList)) =
+      some ([2, 2, 3], [1, 1, 1, 0, 1, 1, 0, 1, 1, 0, 1, 1]) ∧
+    (toVolumeK 3 atoms none (some [2, 1, 1]) none none .scattering).toOption.isNone = true ∧
+    (toVolumeK 3 atoms none (some [1, 2, 1]) none none .scattering).toOption.map (fun o => (o.shape, o.grid.toList)) =
+      some ([2, 1, 3], [1, 0, 0, 0, 0, 1]) := by decide +kernel
+
+/-- `to_volume(weight_type="gaussian")` returns only when the chain subset is non-empty and the atoms inside the
+requested box are all of them, or exactly one (whose weight numpy then broadcasts to every atom); the array handed to the
+Gaussian filter, its origin and its shape are `_position_to_molmap`'s own (`molmap`), NOT the requested ones -/
+theorem toVolumeK_gaussian_ok (nd pad : Nat) (atoms : List Atom) (shape : Option (List Int)) (rate origin : Option (List Rat))
+    (chain : Option String) (out : OutK) (h : toVolumeK nd atoms shape rate origin chain (.gaussian pad) = .ok out) :
+    ∃ r ws, resolveRate nd rate = some r ∧ subsetByChain chain atoms ≠ [] ∧
+      ws.length = (subsetByChain chain atoms).length ∧
+      out.shape = (molmap nd pad r ((subsetByChain chain atoms).map (fun a => a.xyz.reverse)) ws).shape ∧
+      out.origin = (molmap nd pad r ((subsetByChain chain atoms).map (fun a => a.xyz.reverse)) ws).origin ∧
+      out.positions = (molmap nd pad r ((subsetByChain chain atoms).map (fun a => a.xyz.reverse)) ws).positions ∧
+      out.grid = (molmap nd pad r ((subsetByChain chain atoms).map (fun a => a.xyz.reverse)) ws).grid ∧
+      (out.outside = 0 ∨ ∃ w, ws = List.replicate (subsetByChain chain atoms).length w) := by
+  unfold toVolumeK at h
+  simp only at h
+  split at h
+  · cases h
+  · rename_i r hr
+    split at h
+    · cases h
+    · split at h
+      · cases h
+      · rename_i ws hws
+        split at h
+        · cases h
+        · rename_i hne
+          cases h
+          refine ⟨r, ws, hr, by simpa using hne, ?_, rfl, rfl, rfl, rfl, ?_⟩
+          · split at hws
+            · rename_i hlen
+              cases hws
+              rw [List.length_map, hlen]
+            · split at hws
+              · cases hws; simp
+              · cases hws
+          · split at hws
+            · rename_i hlen
+              left
+              simp only
+              omega
+            · split at hws
+              · cases hws; exact Or.inr ⟨_, rfl⟩
+              · cases hws
+
+example :
+    let atoms : List Atom := [⟨[0, 0, 0], "C", "A"⟩, ⟨[2, 1, 1], "N", "A"⟩, ⟨[9, 9, 9], "O", "A"⟩]
+    (toVolumeK 3 atoms (some [3, 3, 3]) none (some [0, 0, 0]) none (.gaussian 2)).toOption.isNone = true ∧
+    (toVolumeK 3 atoms (some [1, 1, 1]) none (some [0, 0, 0]) none (.gaussian 2)).toOption.map
+      (fun o => (o.shape, o.positions, o.grid.toList.sum)) = some ([14, 14, 14], [[2, 2, 2], [3, 3, 4], [11, 11, 11]], 18) ∧
+    (toVolumeK 3 atoms none none none none (.gaussian 2)).toOption.map (fun o => o.grid.toList.sum) = some 21 := by
+  decide +kernel
+
+/-- … and when no left shift happens (origin derived, or given together with the shape) this is the clause the
+harness evaluates on the real outputs (`specVdw` with the RETURNED origin, rate and shape) -/
+theorem toVolumeK_vdw_spec (nd : Nat) (atoms : List Atom) (shape : Option (List Int)) (rate origin : Option (List Rat))
+    (chain : Option String) (out : OutK) (h : toVolumeK nd atoms shape rate origin chain .vdw = .ok out)
+    (hs : ∀ s, shape = some s → s.length = nd) (hpos : ∀ r, resolveRate nd rate = some r → ∀ x ∈ r, 0 < x)
+    (hns : (origin.isSome && shape.isNone) = false) (hx : ∀ a ∈ atoms, a.xyz.length ≤ nd)
+    (v : List Nat) (hv : inShape (toNats out.shape) v = true) :
+    out.grid.getD v 0 = specVdw out.origin out.rate out.shape
+      ((subsetByChain chain atoms).map (fun a => (a.xyz, vdwrD a.elem))) (v.map Int.ofNat) := by
+  obtain ⟨r, hr, e⟩ := toVolumeK_vdw_voxel nd atoms shape rate origin chain out h hs hpos v hv
+  obtain ⟨r', hr', _, ho, hrate, _, _⟩ := toVolumeK_frame nd atoms shape rate origin chain .vdw (Or.inl rfl) out h
+  have : r' = r := by rw [hr] at hr'; cases hr'; rfl
+  subst this
+  rw [e, hrate]
+  unfold specVdw
+  simp only [List.filter_map, List.length_map]
+  congr 2
+  apply List.filter_congr
+  intro a ha
+  have hc : a.xyz.reverse.length ≤ nd := by simpa using hx a (mem_subsetByChain ha)
+  have hpo := returned_origin_consistent_noshift nd (subsetByChain chain atoms) shape r' origin hns a.xyz.reverse hc
+  have ho' : out.origin = (frameOf nd (subsetByChain chain atoms) shape r' origin).origin := ho
+  simp only [Function.comp, ho', hpo]
+  rfl
+
+/-- `Density.from_structure(path, chain, filter_by_elements, filter_by_residues)` with point weights: every voxel holds
+the summed weight of exactly the records that pass the file filters, belong to the chain selection and are mapped to it -/
+theorem fromFile_voxel (nd : Nat) (recs : List Rec) (e rs : Option (List String)) (shape : Option (List Int))
+    (r : List Rat) (origin : Option (List Rat)) (chain : Option String) (wt : WType) (v : List Nat)
+    (hv : inShape (toNats (toVolumeCore nd (subsetByChain chain ((recs.filter (fun x => fileKeep e rs false x)).map (·.atom)))
+      shape r origin wt).shape) v = true) :
+    (toVolumeCore nd (subsetByChain chain ((recs.filter (fun x => fileKeep e rs false x)).map (·.atom))) shape r origin wt).grid.getD v 0 =
+      ((recs.filter (fun x => (fileKeep e rs false x && chainSel chain x.atom) &&
+          decide (posOf r (frameOf nd (subsetByChain chain ((recs.filter (fun x => fileKeep e rs false x)).map (·.atom))) shape r origin)
+            x.atom.xyz.reverse = v.map Int.ofNat))).map (fun x => weightOf wt x.atom.elem)).sum := by
+  rw [toVolume_voxel _ _ _ _ _ _ v hv]
+  generalize frameOf nd (subsetByChain chain ((recs.filter (fun x => fileKeep e rs false x)).map (·.atom))) shape r origin = fr
+  rw [subsetByChain_eq_filter]
+  simp only [List.filter_map, List.filter_filter, List.map_map]
+  congr 1
+  congr 1
+  apply List.filter_congr
+  intro x _
+  simp only [Function.comp, Bool.and_comm, Bool.and_assoc]
+
+example :
+    let recs : List Rec := [⟨⟨[0, 0, 0], "C", "A"⟩, "GLY", "ATOM"⟩, ⟨⟨[1, 1, 1], "O", "A"⟩, "SER", "ATOM"⟩,
+      ⟨⟨[1, 1, 1], "N", "B"⟩, "SER", "ATOM"⟩, ⟨⟨[1, 0, 0], "ZN", "A"⟩, "ZN", "HETATM"⟩]
+    (fromFileK 3 recs none (some ["SER", "ZN"]) (some [2, 2, 2]) none (some [0, 0, 0]) none (.point .atomicNumber)).toOption.map
+      (fun o => o.grid.toList) = some [0, 0, 0, 0, 0, 0, 0, 15] := by decide +kernel
+
+/-- grid level symmetry: an atom contributes the same to a voxel and to its mirror image about the atom's voxel,
+whenever both are inside the box (the only asymmetry of the van der Waals volume is the clipping by the faces) -/
+theorem vdw_contribution_mirror (shape p k v : List Int) (hk : k.length = p.length) (hp : p.length = shape.length)
+    (hv : inBox shape v = true) (hm : inBox shape (mirror p v) = true) :
+    vdwContribution shape p k (mirror p v) = vdwContribution shape p k v := by
+  rw [vdwContribution_eq shape p k _ hk hp, vdwContribution_eq shape p k _ hk hp, hv, hm, offs_mirror, sphere_symmetric]
+
+example : mirror [5, 5] [6, 3] = [4, 7] ∧ vdwContribution [10, 10] [5, 5] [2, 3] [6, 3] = 1 ∧
+    vdwContribution [10, 10] [5, 5] [2, 3] [4, 7] = 1 := by decide +kernel
+
+/-- shape derived: also for the sphere / support weight types no atom is outside -/
+theorem toVolumeK_derived_all_inside (nd : Nat) (atoms : List Atom) (rate origin : Option (List Rat))
+    (chain : Option String) (wk : WKind) (hwk : wk = .vdw ∨ wk = .scattering) (out : OutK)
+    (h : toVolumeK nd atoms none rate origin chain wk = .ok out)
+    (hx : ∀ a ∈ atoms, a.xyz.length = nd) (hol : ∀ o, origin = some o → o.length = nd)
+    (hrp : ∀ r, resolveRate nd rate = some r → ∀ k, k < nd → 0 < r.getD k 0) : out.outside = 0 := by
+  obtain ⟨r, hr, _, _, _, ho, _⟩ := toVolumeK_frame nd atoms none rate origin chain wk hwk out h
+  rw [ho]
+  exact (derived_all_inside nd (subsetByChain chain atoms) r origin .atomicNumber
+    (fun a ha => hx a (mem_subsetByChain ha)) (resolveRate_length nd rate r hr) hol (hrp r hr)).1
+
+example :
+    let atoms : List Atom := [⟨[0, 0, 0], "C", "A"⟩, ⟨[2, 1, 1], "N", "A"⟩, ⟨[-3, 5/2, 7], "S", "B"⟩]
+    (toVolumeK 3 atoms none (some [1, 2, 1/2]) (some [1, 1, 1]) none .vdw).toOption.map (fun o => (o.outside, o.shape)) =
+      some (0, [8, 2, 11]) := by decide +kernel
+
+/-- an atom inside the box whose radius is at least one voxel on every axis marks its own voxel -/
+theorem vdw_centre_covered (shape p k : List Int) (hk : k.length = p.length) (hp : inBox shape p = true)
+    (hpos : ∀ x ∈ k, 0 < x) : vdwContribution shape p k p = 1 := by
+  rw [vdwContribution_eq shape p k p hk (inBox_length hp), hp, offs_self, ← hk, sphere_contains_centre k hpos]
+  rfl
+
+example : vdwContribution [4, 4] [0, 3] [1, 2] [0, 3] = 1 ∧ vdwContribution [4, 4] [0, 3] [0, 0] [0, 3] = 0 := by decide +kernel
+
+/-- (helper) every range contains the atom's voxel and none is empty when every radius is at least one voxel -/
+theorem inRanges_centre : ∀ (p : List Int) (R : List Rat) (shape : List Int), inBox shape p = true →
+    R.length = shape.length → (∀ x ∈ R, 1 ≤ x) →
+    inRanges (zip3 scatRange p R shape) p = true ∧ (zip3 scatRange p R shape).any rangeEmpty = false
+  | [], [], [], _, _, _ => by simp [zip3, inRanges]
+  | [], _ :: _, [], _, hl, _ => by simp at hl
+  | [], _ :: _, _ :: _, h, _, _ => by simp [inBox] at h
+  | _ :: _, _, [], h, _, _ => by simp [inBox] at h
+  | _ :: _, [], _ :: _, _, h, _ => by simp at h
+  | [], [], _ :: _, h, _, _ => by simp [inBox] at h
+  | p :: ps, R :: Rs, n :: ns, h, hl, hR => by
+      obtain ⟨hb, hr⟩ := inBox_cons.mp h
+      obtain ⟨ih1, ih2⟩ := inRanges_centre ps Rs ns hr (by simpa using hl) (fun x hx => hR x (by simp [hx]))
+      have hc := (scat_axis_centre_iff p R n hb).mpr (hR R (by simp))
+      refine ⟨?_, ?_⟩
+      · simp only [zip3, inRanges, Bool.and_eq_true, decide_eq_true_eq]
+        exact ⟨hc, ih1⟩
+      · simp only [zip3, List.any_cons, Bool.or_eq_false_iff]
+        refine ⟨?_, ih2⟩
+        simp only [rangeEmpty, decide_eq_false_iff_not]
+        omega
+
+/-- an atom inside the box whose radius is at least one voxel on every axis contributes to its own voxel (and the
+conversion does not raise on its account) -/
+theorem scat_centre_covered (p : List Int) (R : List Rat) (shape : List Int) (hp : inBox shape p = true)
+    (hl : R.length = shape.length) (hR : ∀ x ∈ R, 1 ≤ x) : scatCovers p R shape p = true := by
+  obtain ⟨h1, h2⟩ := inRanges_centre p R shape hp hl hR
+  unfold scatCovers scatSupport
+  by_cases hc : rangeEmpty ((zip3 scatRange p R shape).getD 1 (0, 0)) = true
+  · simp only
+    rw [if_pos hc]
+    simp
+  · simp only
+    rw [if_neg hc, if_neg (by rw [h2]; simp)]
+    exact h1
+
+example : scatCovers [0, 3, 1] [1, 3/2, 2] [1, 4, 2] [0, 3, 1] = true := by decide +kernel
+
+/-- `to_volume(weight_type="gaussian")` when no atom is outside the requested box (in particular when none is
+requested): the array handed to the Gaussian filter sums to the summed atomic number of the chain subset -/
+theorem toVolumeK_gaussian_total (nd pad : Nat) (atoms : List Atom) (shape : Option (List Int)) (rate origin : Option (List Rat))
+    (chain : Option String) (out : OutK) (h : toVolumeK nd atoms shape rate origin chain (.gaussian pad) = .ok out)
+    (hx : ∀ a ∈ atoms, a.xyz.length = nd)
+    (hrp : ∀ r, resolveRate nd rate = some r → ∀ k, k < nd → 0 < r.getD k 0) (hout : out.outside = 0) :
+    out.grid.data.toList.sum = ((subsetByChain chain atoms).map (fun a => weightOf .atomicNumber a.elem)).sum := by
+  unfold toVolumeK at h
+  simp only at h
+  split at h
+  · cases h
+  · rename_i r hr
+    have hrl := resolveRate_length nd rate r hr
+    split at h
+    · cases h
+    · split at h
+      · cases h
+      · rename_i ws hws
+        split at h
+        · cases h
+        · cases h
+          simp only at hout ⊢
+          set sub := subsetByChain chain atoms with hsub
+          set fr := frame nd (sub.map (fun a => a.xyz.reverse)) shape r origin with hfr
+          set all := sub.map (fun a => (posOf r fr a.xyz.reverse, a.elem)) with hall
+          have hle : (all.filter (fun pe => inBox fr.shape pe.1)).length ≤ all.length := List.length_filter_le _ _
+          have hal : all.length = sub.length := by simp [hall]
+          have hlen : (all.filter (fun pe => inBox fr.shape pe.1)).length = sub.length := by omega
+          have hkeep : all.filter (fun pe => inBox fr.shape pe.1) = all :=
+            filter_eq_self_of_length _ _ (by omega)
+          rw [if_pos hlen] at hws
+          cases hws
+          have hcl : ∀ c ∈ sub.map (fun a => a.xyz.reverse), c.length = nd := by
+            intro c hc
+            obtain ⟨a, ha, rfl⟩ := List.mem_map.mp hc
+            simpa using hx a (mem_subsetByChain ha)
+          rw [(molmap_total nd pad r _ _ hrl (hrp r hr) hcl (by rw [List.length_map, List.length_map]; exact hlen)).2.2, hkeep, hall, List.map_map]
+          rfl
+
+example :
+    let atoms : List Atom := [⟨[0, 0, 0], "C", "A"⟩, ⟨[2, 1, 1], "N", "B"⟩, ⟨[4, 4, 4], "O", "A"⟩]
+    (toVolumeK 3 atoms (some [11, 11, 11]) (some [1/2]) (some [-1, -1, -1]) none (.gaussian 3)).toOption.map
+      (fun o => (o.outside, o.grid.toList.sum)) = some (0, 21) := by decide +kernel
+
+/-! ## the radius table -/
+
+
+/-- the radius table has the keys of the weight table, in the same order (one `Elements._elements` dict) -/
+theorem vdwrTable_keys : vdwrTable.map (·.1) = elementTable.map (·.1) := by decide +kernel
+
+/-- a symbol that is no table key has radius 0 (`Elements._default`), every axis radius is then 0 voxels and the atom
+deposits nothing, whatever the sampling rate -/
+theorem unknown_symbol_deposits_nothing (sym : String) (h : vdwrTable.find? (fun e => e.1 == sym) = none)
+    (rate : List Rat) (hr : rate ≠ []) (d : List Int) :
+    vdwrOf sym = some 0 ∧ inSphere (vdwRadius (vdwrD sym) rate) d = false := by
+  have h0 : vdwrOf sym = some 0 := by unfold vdwrOf; rw [h]
+  refine ⟨h0, ?_⟩
+  cases rate with
+  | nil => exact absurd rfl hr
+  | cons r rs =>
+    apply sphere_empty_of_zero_radius _ d (ceilQ (((vdwrD sym : Nat) : Rat) / (r * 100))) (by simp [vdwRadius])
+    unfold vdwrD
+    rw [h0]
+    simp [ceilQ, floor_eq]
+
+example : vdwrTable.find? (fun e => e.1 == "Xx") = none ∧ vdwrOf "Zn" = some 0 ∧ vdwrOf "ZN" = some 201 ∧ vdwrOf "OG" = none := by
+  decide +kernel
 
 end Pm.C10
